@@ -127,6 +127,12 @@ def check(mods):
 
 
 def root_cause(mods, problems):
+    """C05-F2: a definition and a wildcard import of the same name written on ONE line (`x = 1; from m import *`): Griffe orders statements by line number
+    only, CPython runs them left to right."""
+    import re
+    culprit = [i for i, src in enumerate(mods) if any(re.search(r";\s*from \S+ import \*", line) for line in src.splitlines())]
+    if culprit and all(re.search(r"pkg\.m\d\.(\w+): griffe \('obj'", p) for p in problems):
+        return ["C05-F2"]
     return []
 
 
@@ -157,6 +163,9 @@ def sweep(seed=0, n_random=300, budget_s=120, stop_after=5):
     for body in ("__all__ = m0.__all__\n__all__ += m1.__all__", "__all__ = []\n__all__ += m0.__all__\n__all__ += m1.__all__", "__all__ = ['x']\n__all__ += m0.__all__ + m1.__all__",
                  "__all__ = m0.__all__ + ['K']\n__all__ += m1.__all__\n__all__ += ['x']", "__all__ = m1.__all__\n__all__ += m1.__all__\n__all__ += m0.__all__"):
         graphs.insert(0, (d0, d1, imp + body, "from pkg.m2 import *"))
+    # two statements on one line (the property quantifies over any placement of wildcard statements relative to local definitions)
+    graphs.insert(0, ("x = 'pkg.m0.x'", "x = 'pkg.m1.x'; from pkg.m0 import *", "from pkg.m1 import x"))
+    graphs.insert(0, ("x = 'pkg.m0.x'", "from pkg.m0 import *; x = 'pkg.m1.x'", "from pkg.m1 import x"))
     # 4 modules, imports in any direction (load order differs from dependency order); cycles are rejected by CPython
     st4 = [statements(i, [j for j in range(4) if j != i]) for i in range(4)]
     for _ in range(n_random):
